@@ -466,7 +466,8 @@ def menus():
     for p in ("E", "R", "alpha", "nu", "contact_point", "baseline"):
         m["value:" + p] = vals[p]
         m["vary:" + p] = ["true", "False", "TRUE"]
-    m["range_type"] = ["absolute", "relative", "relative cp"]
+    m["range_type"] = ["absolute", "relative", "relative cp", "Relative CP",
+                       "absolute "]
     m["left"] = ["-2", "0", "0.5"]
     m["right"] = ["1", "0", "-0.5"]
     m["weight"] = ["0", "0.5", "2"]
